@@ -60,7 +60,8 @@ fn proj(r: &Value) -> Value {
 }
 
 /// returns false when the application stopped answering (the rest of the run is then skipped)
-fn batch_histories(tier: Tier, st: &mut Stats) -> bool {
+/// `only`: a recorded case (replay) - just its batch under its configuration is run, with every override and policy
+fn batch_histories(tier: Tier, st: &mut Stats, only: Option<&Value>) -> bool {
     let scratch = Scratch::new("c06");
     let alpha = alphabet();
     let max_len = tier.pick(3usize, 4usize);
@@ -82,6 +83,11 @@ fn batch_histories(tier: Tier, st: &mut Stats) -> bool {
     let mut apps: Vec<(usize, &str, std::sync::Arc<CompassApp>)> = vec![];
     for par in 1..=4usize {
         for bal in ["none", "haversine", "custom"] {
+            if let Some(o) = only {
+                if o["configured_parallelism"].as_u64() != Some(par as u64) || o["balancer"].as_str() != Some(bal) {
+                    continue;
+                }
+            }
             match app_spec(par, bal).build(&scratch.path.join(format!("app_{}_{}", par, bal))) {
                 Ok(a) => apps.push((par, bal, std::sync::Arc::new(a))),
                 Err(e) => {
@@ -109,11 +115,17 @@ fn batch_histories(tier: Tier, st: &mut Stats) -> bool {
         }
         for (bi, b) in batches.iter().enumerate() {
             // quick: batches of length 3 are spread over the 12 configurations (each batch still runs under three of them)
+            if let Some(o) = only {
+                let names: Vec<Value> = b.iter().map(|qi| json!(alpha[*qi].0)).collect();
+                if o["batch"] != Value::Array(names) {
+                    continue;
+                }
+            }
             if tier == Tier::Quick && b.len() == 3 && (bi + ai) % 4 != 0 {
                 continue;
             }
             for override_par in [None, Some(1usize), Some(3usize)] {
-                if override_par.is_some() && (bi + ai) % 3 != 0 {
+                if only.is_none() && override_par.is_some() && (bi + ai) % 3 != 0 {
                     continue;
                 }
                 for persist in ["persist_response_in_memory", "discard_response_from_memory"] {
@@ -325,7 +337,7 @@ pub fn run(tier: Tier) -> i32 {
     let info = RunInfo::new("C06", tier);
     let mut st = Stats::new();
     let mut bounds = serde_json::Map::new();
-    let alive = batch_histories(tier, &mut st);
+    let alive = batch_histories(tier, &mut st, None);
     load_balancing(tier, &mut st);
     st.sample(3, || json!({"load_balancing": {"weights": [null, 5.0, 0.0, 2.0], "parallelism": 3}}));
     if alive {
@@ -357,8 +369,20 @@ pub fn replay(case: &Value) -> i32 {
     let name = match case.get("scenario").and_then(|v| v.as_str()) {
         Some(n) => n.to_string(),
         None => {
-            println!("C06 replay of a non-schedule case: re-running the quick tier");
-            return run(Tier::Quick);
+            // a batch history or a load-balancing case: run again without the tier (the batch under its configuration with
+            // every per-run override and both policies; the whole load-balancing enumeration, which takes a second)
+            let c = if case.get("case").is_some() { &case["case"] } else { case };
+            let mut st = Stats::new();
+            if c.get("batch").is_some() {
+                batch_histories(Tier::Thorough, &mut st, Some(c));
+            } else {
+                load_balancing(Tier::Thorough, &mut st);
+            }
+            for (k, g) in st.violations.iter() {
+                println!("REPLAY-VIOLATION {} ({} cases) {}", k, g.count, g.detail.chars().take(500).collect::<String>());
+            }
+            println!("replay: {} violated clauses over {} runs", st.violations.len(), st.evaluations);
+            return if st.violations.is_empty() { 0 } else { 1 };
         }
     };
     let (cache, sc, _) = match schedule_scenarios(Tier::Thorough).into_iter().find(|s| s.1.name == name) {
